@@ -352,6 +352,17 @@ def corpus():
                 "preferred": [], "orders": [[0, 1], [1, 0]],
                 "steps": [{"t": t, "psi": "%02x" % k * 16, "goal": {"total": 2, "goal": [], "bad": []}}
                           for k, t in enumerate([0, 999, 1000, 1001, 10**9])]})
+    # the same expiry history with server 0 preferred and already holding share 0 of the file being published: after the expiry
+    # neither its being preferred (seed C32-c) nor its holding a share (seed C32-b) may bring it new uploads
+    res.append({"gm_seeds": ["%02x" % (i + 1) * 32 for i in range(3)], "gm_keys": [0],
+                "servers": [{"seed": "51" * 32, "perm": None, "connected": True, "nickname": "a",
+                             "certs": [{"kind": "good", "gm": 0, "for": 0, "exp": 1000}]},
+                            {"seed": "52" * 32, "perm": None, "connected": True, "nickname": "b",
+                             "certs": [{"kind": "good", "gm": 0, "for": 1, "exp": 10**12}]},
+                            {"seed": "53" * 32, "perm": None, "connected": True, "nickname": "c", "certs": []}],
+                "preferred": [["s", 0], ["s", 2]], "orders": [[0, 1, 2], [2, 1, 0]],
+                "steps": [{"t": t, "psi": "%02x" % (k + 7) * 16, "goal": {"total": 5, "goal": [[0, 0], [2, 1]], "bad": []}}
+                          for k, t in enumerate([0, 999, 1000, 1001, 10**9])]})
     return res
 
 
